@@ -600,9 +600,41 @@ SCENARIOS = {
                           ("recv", "r1", 5), ("steps", 6), ("cancel", "r1"), ("steps", 4), ("gate", 1), ("join", "w"),
                           ("recv", "r2", 5), ("join", "r2")],
 }
+def _sc_cancel_sweep(params):
+    """recv() cancelled at its k-th resumption, whatever it is parked on; the following recv() calls must continue the
+    stream without a hole.  params = [k, frag, data_first, writer]"""
+    k, frag, data_first, writer = params
+    pre = [("peer_write", 100), ("peer_write", 50)]
+    script = (pre if data_first else []) + ([("send", "w", [10])] if writer else []) + [("recv_cancel", "r0", 200, k), ("steps", 3)] \
+        + ([] if data_first else pre) + [("join", "r0"), ("drain", 150)] + ([("join", "w")] if writer else [])
+    return dict(frag=frag, recv_yields=1), script
+
+
+def _sc_two_writers(params):
+    """two tasks call send_all concurrently over a wrapped transport whose send_all is NOT atomic (pieces + yields).
+    params = [piece, yields, n1, n2, size...]"""
+    piece, yields, n1, n2 = params[:4]
+    sizes = list(params[4:])
+    a, b = sizes[:n1], sizes[n1:n1 + n2]
+    return dict(send_pieces=piece, send_yields=yields), [("send_seq", "w1", a), ("send_seq", "w2", b), ("join", "w1"), ("join", "w2")]
+
+
+def _sc_big_write(params):
+    """one send_all larger than the incoming-reader buffer / one BIO chunk (256 KiB); echo = request/reply.
+    params = [size, echo]"""
+    size, echo = params
+    if echo:
+        return dict(echo=1), [("send", "w", [size]), ("drain", size), ("join", "w")]
+    return dict(), [("send", "w", [size]), ("join", "w")]
+
+
+SCENARIOS["cancel-sweep"] = _sc_cancel_sweep
+SCENARIOS["two-writers"] = _sc_two_writers
+SCENARIOS["big-write"] = _sc_big_write
+
 # codes are part of recorded corpus inputs: never renumber, only append
 SCENARIO_CODES = {"echo": 0, "echo-2": 1, "abandoned-send": 2, "backpressure-read": 3, "cancel-after-read": 4,
-                  "second-send-behind-parked-send": 5}
+                  "second-send-behind-parked-send": 5, "cancel-sweep": 6, "two-writers": 7, "big-write": 8}
 assert set(SCENARIO_CODES) == set(SCENARIOS)
 SCENARIO_NAMES = {v: k for k, v in SCENARIO_CODES.items()}
 # scenarios that fail on a tree without the corresponding fix: reported through the corpus / known_findings only
@@ -615,7 +647,10 @@ def run_scenario(cfg):
     from easynetwork.lowlevel.api_async.transports.tls import AsyncTLSStreamTransport
 
     name = cfg["name"]
+    opts = {}
     script = SCENARIOS[name]
+    if callable(script):
+        opts, script = script(list(cfg.get("params", [])))
     rec = K.Recorder()
     ver, client = cfg["ver"], bool(cfg["client"])
     if client:
@@ -624,8 +659,8 @@ def run_scenario(cfg):
     else:
         peer = K.Peer(K.client_ctx(ver), False, [])
         ctx = K.RecContext(K.server_ctx(ver), rec)
-    peer.echo = name.startswith("echo")
-    info = dict(results={}, recvd={}, stuck=[], deadlock=False, sent={}, order=[])
+    peer.echo = name.startswith("echo") or bool(opts.get("echo"))
+    info = dict(results={}, recvd={}, stuck=[], deadlock=False, sent={}, order=[], nsteps={}, send_order=[])
     peer_plain = bytearray()
 
     async def main():
@@ -640,6 +675,14 @@ def run_scenario(cfg):
                                                    server_hostname="localhost" if client else None)
         info["results"][op] = [0, 0]
         tasks = {}
+        # options of the wrapped transport apply once the handshake is done
+        if opts.get("frag"):
+            tr.frags = lambda avail: opts["frag"]
+        tr.recv_yields = opts.get("recv_yields", 0)
+        tr.send_yields = opts.get("send_yields", 0)
+        tr.send_pieces = opts.get("send_pieces", 0)
+        drained = bytearray()
+        info["drained"] = drained
 
         async def do_recv(tag, n):
             op = rec.begin_op(K.M_READ, n, [])
@@ -655,6 +698,7 @@ def run_scenario(cfg):
         async def do_send(tag, sizes):
             datas = [_plain(n, b"T" + tag.encode() + b".%d" % j) for j, n in enumerate(sizes)]
             info["sent"][tag] = b"".join(datas)
+            info["send_order"].append(tag)
             op = rec.begin_op(K.M_WRITE, 0, sizes)
             try:
                 if len(datas) == 1:
@@ -667,9 +711,37 @@ def run_scenario(cfg):
                 info["results"][op] = [1, _exc_code(exc)]
                 raise
 
+        async def do_send_seq(tag, sizes):
+            for j, n in enumerate(sizes):
+                await do_send(f"{tag}.{j}", [n])
+
         for cmd in script:
             what = cmd[0]
-            if what == "recv":
+            if what == "recv_cancel":
+                tasks[cmd[1]] = K.CountingTask(do_recv(cmd[1], cmd[2]), loop=asyncio.get_running_loop(), cancel_at=cmd[3])
+                await asyncio.sleep(0)
+            elif what == "send_seq":
+                tasks[cmd[1]] = asyncio.ensure_future(do_send_seq(cmd[1], cmd[2]))
+                await asyncio.sleep(0)
+            elif what == "drain":
+                # sequential recv() calls until cmd[1] bytes have been returned in total (bounded)
+                total = sum(len(v) for v in info["recvd"].values())
+                for j in range(400):
+                    if total >= cmd[1]:
+                        break
+                    tag = f"d{j}"
+                    tasks[tag] = asyncio.ensure_future(do_recv(tag, 65536))
+                    for _ in range(400):
+                        if tasks[tag].done():
+                            break
+                        await asyncio.sleep(0)
+                    else:
+                        info["stuck"].append(tag)
+                        break
+                    if tasks[tag].exception() is not None or not info["recvd"].get(tag):
+                        break
+                    total += len(info["recvd"][tag])
+            elif what == "recv":
                 tasks[cmd[1]] = asyncio.ensure_future(do_recv(cmd[1], cmd[2]))
                 await asyncio.sleep(0)
             elif what == "send":
@@ -698,6 +770,7 @@ def run_scenario(cfg):
         info["events_end"] = len(rec.events)
         info["wpending"] = t._write_bio.pending
         info["peer_got"] = bytes(peer.plain_in)
+        info["nsteps"] = {k_: v.nsteps for k_, v in tasks.items() if isinstance(v, K.CountingTask)}
         for x in tasks.values():
             x.cancel()
         await asyncio.gather(*tasks.values(), return_exceptions=True)
@@ -727,6 +800,12 @@ def run_scenario(cfg):
                             "the send lock (nothing to flush): the next recv() skips it")
         elif info["stuck"]:
             problems.append(f"stuck: {info['stuck']} did not complete")
+    elif name == "cancel-sweep":
+        got = b"".join(info["recvd"][k_] for k_ in info["order"] if k_ in info["recvd"])
+        if got != bytes(peer_plain):
+            problems.append("bytes of the stream were lost (or duplicated) around a cancelled recv(): the completed recv() calls "
+                            f"returned {len(got)} of the {len(peer_plain)} bytes the peer wrote"
+                            + (" (the following recv() waits forever for them)" if info["stuck"] else ""))
     elif info["stuck"]:
         problems.append(f"stuck: {info['stuck']} did not complete although nothing prevents it "
                         "(request/response or abandoned-send scenario)")
@@ -735,6 +814,22 @@ def run_scenario(cfg):
         got = b"".join(info["recvd"].get(k, b"") for k in ("r", "r2"))
         if got != sent[: len(got)] or not got:
             problems.append("echoed plaintext is not a prefix of the plaintext written")
+    if name == "two-writers" and not problems:
+        expected = b"".join(info["sent"][k_] for k_ in info["send_order"])
+        if peer.read_error is not None:
+            problems.append("two concurrent send_all() over a non-atomic wrapped transport: the peer's TLS layer rejected the stream")
+        elif info["peer_got"] != expected:
+            problems.append("two concurrent send_all() over a non-atomic wrapped transport: the peer did not decode the plaintext "
+                            "of the calls in the order they were issued")
+    if name == "big-write" and not problems:
+        sent = info["sent"].get("w", b"")
+        if info["peer_got"] != sent:
+            problems.append("send_all returned although its plaintext had not reached the peer (large write: ciphertext left in "
+                            f"the outgoing BIO: {info.get('wpending')} bytes)")
+        elif opts.get("echo"):
+            got = b"".join(info["recvd"][k_] for k_ in info["order"] if k_ in info["recvd"])
+            if got != sent:
+                problems.append("request/reply with a large request: the reply was not received completely")
     if name == "second-send-behind-parked-send" and not problems:
         if info["peer_got"] != info["sent"]["w1"] + info["sent"]["w2"]:
             problems.append("send_all returned although its plaintext had not reached the peer (a send_all issued while another "
@@ -801,7 +896,7 @@ def _sx_cfg(f):
         return dict(kind="sync-duplex", ver=f[1], client=f[2], writes=list(f[3]), peer_writes=list(f[4]), frag=f[5],
                     seed=f[6], recv_size=f[7], into=f[8])
     if isinstance(f[0], bytes) and f[0] == b"scenario":
-        return dict(kind="scenario", flag=f[1], name=SCENARIO_NAMES[f[2]], ver=f[3], client=f[4])
+        return dict(kind="scenario", flag=f[1], name=SCENARIO_NAMES[f[2]], ver=f[3], client=f[4], params=list(f[5]) if len(f) > 5 else [])
     if isinstance(f[0], bytes):
         return dict(kind="two-readers", flag=f[1], ver=f[2], client=f[3])
     return dict(ver=f[0], client=f[1], writes=[w[0] if len(w) == 1 else list(w) for w in f[2]], peer_writes=list(f[3]),
@@ -819,7 +914,10 @@ def _build(cfg):
         return inp, out, r["info"]
     if cfg.get("kind") == "scenario":
         r = run_scenario(cfg)
-        inp = sx.norm([r["labels"], [b"scenario", cfg["flag"], SCENARIO_CODES[cfg["name"]], cfg["ver"], int(cfg["client"])]])
+        tail = [b"scenario", cfg["flag"], SCENARIO_CODES[cfg["name"]], cfg["ver"], int(cfg["client"])]
+        if cfg.get("params"):
+            tail.append(list(cfg["params"]))
+        inp = sx.norm([r["labels"], tail])
         out = list(r["out"])
         known = cfg["name"] in KNOWN_SCENARIO_SIGNATURES and not scenario_fixed(cfg["name"])
         if r["info"]["problems"] and not known:
@@ -887,7 +985,7 @@ def cases(tier, rng, escalate):
     cap = 12000 if thorough else 2500          # labels per case (longer traces are left to the other families)
     def weight(c):
         return len(c["input"][0]) if isinstance(c["input"][0], list) else 50
-    allc = [c for c in _gen(thorough, rng) if weight(c) <= cap] + list(_gen_sync(thorough, rng)) + list(_gen_scenarios(thorough, rng))
+    allc = [c for c in _gen(thorough, rng) if weight(c) <= cap] + list(_gen_sync(thorough, rng)) + list(_gen_scenarios(thorough, rng)) + list(_gen_param_scenarios(thorough, rng))
     allc.sort(key=lambda c: -weight(c))
     nb = max(1, -(-len(allc) // 400))
     buckets = [allc[b::nb] for b in range(nb)]
@@ -913,9 +1011,38 @@ def scenario_fixed(name):
     return current_flag() >= 0 and bool(current_flag() & 2)
 
 
+def _gen_param_scenarios(thorough, rng):
+    """cancellation at every suspension point of recv(); two writers over a non-atomic wrapped transport; writes around and
+    above the incoming-reader buffer / BIO chunk size (256 KiB)."""
+    state = current_state()
+
+    def one(name, ver, client, params, tags):
+        inp, _out, info = _build(dict(kind="scenario", flag=state, name=name, ver=ver, client=client, params=params))
+        return dict(input=inp, nontrivial=True, tags=["scenario", name, f"tls1.{ver - 10}", "client" if client else "server"] + tags), info
+
+    combos = [(13, 1), (12, 0)] if not thorough else [(13, 1), (13, 0), (12, 1), (12, 0)]
+    for ver, client in combos:
+        for frag, data_first, writer in ((16, 0, 0), (0, 1, 0), (16, 1, 1), (0, 0, 1)):
+            _c, info = one("cancel-sweep", ver, client, [0, frag, data_first, writer], ["no-cancel"])
+            yield _c
+            nsteps = max(info["nsteps"].values(), default=1)
+            for k in range(1, nsteps + 1):
+                c, _i = one("cancel-sweep", ver, client, [k, frag, data_first, writer], [f"frag{frag}", "cancel-at-suspension-point"])
+                yield c
+        for piece, yields, sizes in ((1000, 1, [20000, 20000]), (1000, 0, [50000, 1]), (7, 2, [40, 50, 60, 70]), (300, 1, [1, 16385, 3, 9000])):
+            n1 = len(sizes) // 2
+            c, _i = one("two-writers", ver, client, [piece, yields, n1, len(sizes) - n1] + sizes, ["non-atomic-send_all"])
+            yield c
+        for size, echo in ([(270000, 0), (270000, 1)] if not thorough else [(262143, 0), (262145, 0), (270000, 0), (270000, 1), (600000, 0), (600000, 1)]):
+            c, _i = one("big-write", ver, client, [size, echo], ["above-256KiB", "request-reply" if echo else "pure-send"])
+            yield c
+
+
 def _gen_scenarios(thorough, rng):
     state = current_state()
     for name in SCENARIOS:
+        if callable(SCENARIOS[name]):
+            continue                      # parameterised: _gen_param_scenarios
         if name in KNOWN_SCENARIO_SIGNATURES and not scenario_fixed(name):
             continue                      # witnesses of known findings live in corpus/C08
         for ver in (13, 12):
